@@ -32,7 +32,7 @@ package fastq
 //@   loop 1 invariant state != 0 ==> t != nil && len(label) > 0
 //@   loop 1 invariant fresh(seqBuff) || arr(seqBuff) == 0
 //@   loop 1 invariant [fragments] len(line) == lineSoFar(r.r)
-//@   loop 1 assigns lineSoFar(r.r), lineLen(r.r)
+//@   loop 1 assigns lineSoFar(r.r), lineLen(r.r), eofPending(r.r)
 //@   loop 2 invariant 0 <= idx && idx <= len(line) && 0 <= i && i <= idx && len(seqBuff) == len(line) && fresh(seqBuff)
 //@   loop 2 invariant wfReader(r) && (fresh(line) || arr(line) == 0) && t != nil
 //@   loop 2 writes fresh
